@@ -13,7 +13,13 @@ from .. import tlc, session, gen
 def _worker(job):
     fn, seed, kw = job
     try:
-        return fn(seed, **kw)
+        out = fn(seed, **kw)
+        if isinstance(out, dict) and 'replay' not in out:
+            # how to rebuild exactly this session later (bin/check <id> --replay <file>)
+            out['replay'] = {'fn': fn.__module__ + ':' + fn.__name__, 'seed': seed, 'kw': kw}
+            for m in out.get('multi', []) if isinstance(out.get('multi'), list) else []:
+                m.setdefault('replay', dict(out['replay'], pick=m.get('tags')))
+        return out
     except MachineryError as ex:
         return {'machinery': str(ex), 'seed': seed}
     except Exception as ex:  # noqa
@@ -106,7 +112,8 @@ def validate_sessions(run, sessions, *, symptom_of=None, shards=None, interestin
         if v.reached != v.length:
             ev = s['log'][v.reached] if v.reached < len(s['log']) else {}
             nfail += 1
-            run.violation({'text': s.get('text'), 'event_index': v.reached + 1, 'event': ev, 'tags': s.get('tags'), 'seed': s.get('seed')},
+            run.violation({'text': s.get('text'), 'event_index': v.reached + 1, 'event': ev, 'tags': s.get('tags'), 'seed': s.get('seed'),
+                           'replay': s.get('replay'), 'case_id': s.get('case_id')},
                           f"the specification's row machine does not allow event {v.reached + 1} ({describe_event(ev)[:200]}) "
                           f"of this recorded session", classes=classes, symptom='blocked',
                           case_key=(s['case_id'] + '|blocked') if s.get('case_id') else None)
@@ -125,7 +132,7 @@ def validate_sessions(run, sessions, *, symptom_of=None, shards=None, interestin
             seen.add(key)
             nfail += 1
             run.violation({'text': s.get('text'), 'event_index': pos, 'clause': clause, 'event': {k: v2 for k, v2 in ev.items() if k != 'snap'},
-                           'tags': s.get('tags'), 'seed': s.get('seed')},
+                           'tags': s.get('tags'), 'seed': s.get('seed'), 'replay': s.get('replay'), 'case_id': s.get('case_id')},
                           f"clause {clause} fails at event {pos}: {describe_event(ev)[:400]} | document: {s.get('text', '')[:300]!r}",
                           classes=cl, symptom=sym, case_key=(f"{s['case_id']}|{sym}|{pos}") if s.get('case_id') else None)
     if outside:
@@ -142,3 +149,24 @@ def relevant_for(pid):
     import os
     with open(os.path.join(os.path.dirname(__file__), 'relevant.json')) as f:
         return json.load(f).get(pid)
+
+
+def replay_sessions(replay_file_content):
+    """Rebuilds the session(s) of a stored violation by calling its builder again on the CURRENT code."""
+    import importlib
+    case = replay_file_content['case']
+    rp = case.get('replay')
+    if not rp:
+        raise MachineryError('this replay file does not say how to rebuild its session')
+    mod, fn = rp['fn'].split(':')
+    f = getattr(importlib.import_module(mod), fn)
+    out = f(rp['seed'], **rp.get('kw', {}))
+    sess = out.get('multi') if isinstance(out, dict) and isinstance(out.get('multi'), list) and out.get('multi') else [out]
+    if rp.get('pick'):
+        sess = [s for s in sess if s.get('tags') == rp['pick']] or sess
+    for s in sess:
+        s.setdefault('tags', case.get('tags') or [])
+        if case.get('case_id'):
+            s['case_id'] = case['case_id']
+        s['replay'] = rp
+    return sess
